@@ -663,3 +663,178 @@ Proof.
       apply (tctx_head_notin _ _ _ _ Ht). rewrite Heq. now apply in_map.
     + intros p' c' e' Hs' He'. apply Hpres; [assumption | now right].
 Qed.
+
+Lemma add_all_created x e ce es p c :
+  tctx p c es -> In (e, ce) (entry_ids c es) ->
+  (forall p', sctx p' ce e -> In x (pedges (add_value_store p' ce e))) ->
+  ce <= esrc x \/ esrc x = enode e ->
+  In x (pedges (add_all p c es)).
+Proof.
+  intros Ht Hin Hat Hsrc.
+  apply (add_all_at (fun _ => True) x e ce es p c); [exact Ht | exact Hin | exact I | | | exact Hsrc].
+  - intros; exact I.
+  - intros p' Hs _. now apply Hat.
+Qed.
+
+Lemma entry_reg c es e ce : In (e, ce) (entry_ids c es) -> In (enode e) (map enode es).
+Proof. intros H. apply entry_ids_In in H. apply in_map. apply H. Qed.
+
+(** ids of different entries do not overlap *)
+Lemma entry_ids_order c es : forall e1 c1 e2 c2,
+  In (e1, c1) (entry_ids c es) -> In (e2, c2) (entry_ids c es) ->
+  (e1 = e2 /\ c1 = c2) \/ next_id c1 e1 <= c2 \/ next_id c2 e2 <= c1.
+Proof.
+  revert c. induction es as [|e0 es IH]; intros c e1 c1 e2 c2 H1 H2; cbn in *; [contradiction|].
+  destruct H1 as [H1 | H1], H2 as [H2 | H2].
+  - inversion H1; inversion H2; subst. now left.
+  - inversion H1; subst. apply entry_ids_In in H2. right. left. apply H2.
+  - inversion H2; subst. apply entry_ids_In in H1. right. right. apply H1.
+  - now apply (IH (next_id c e0)).
+Qed.
+
+(** ** B.1 write, then read; both carry their store as a literal argument *)
+Theorem C09_write_then_read p c es e ce :
+  tctx p c es -> In (e, ce) (entry_ids c es) ->
+  let q := add_all p c es in
+  In (mke (lit_id ce) (read_id ce) (KPos 0)) (pedges q) /\
+  (estale e = true -> In (mke (write_id ce) (read_id ce) KDep) (pedges q)) /\
+  (estale e = true -> esource e = false ->
+   In (mke (enode e) (write_id ce) (KPos 1)) (pedges q) /\
+   In (mke (lit_id ce) (write_id ce) (KPos 0)) (pedges q)).
+Proof.
+  intros Ht Hin q. subst q. split; [|split].
+  - apply (add_all_created _ e ce); [exact Ht | exact Hin | |].
+    + intros p' Hs. apply (add_value_store_edges p' ce e _ Hs). apply AE_lit_read.
+    + left. cbn. unfold lit_id. lia.
+  - intros Hst. apply (add_all_created _ e ce); [exact Ht | exact Hin | |].
+    + intros p' Hs. apply (add_value_store_edges p' ce e _ Hs). now apply AE_write_read.
+    + left. cbn. unfold write_id. lia.
+  - intros Hst Hso. split.
+    + apply (add_all_created _ e ce); [exact Ht | exact Hin | |].
+      * intros p' Hs. apply (add_value_store_edges p' ce e _ Hs). now apply AE_val_write.
+      * right. reflexivity.
+    + apply (add_all_created _ e ce); [exact Ht | exact Hin | |].
+      * intros p' Hs. apply (add_value_store_edges p' ce e _ Hs). now apply AE_lit_write.
+      * left. cbn. unfold lit_id. lia.
+Qed.
+
+(** ** B.2 consumers take the value from the read node *)
+Lemma phi_edge_preserved (y : kedge) p' c' e' :
+  sctx p' c' e' -> enode e' <> esrc y -> In y (pedges p') -> In y (pedges (add_value_store p' c' e')).
+Proof.
+  intros Hs Hne Hy. apply (add_value_store_edges p' c' e' _ Hs). apply AE_old; [assumption | congruence].
+Qed.
+
+Theorem C09_consumers_on_read p c es e ce s k :
+  tctx p c es -> In (e, ce) (entry_ids c es) ->
+  In (mke (enode e) s k) (pedges p) -> k <> KDep ->
+  In (mke (read_id ce) s k) (pedges (add_all p c es)) /\
+  ~ In (mke (enode e) s k) (pedges (add_all p c es)).
+Proof.
+  intros Ht Hin Hx Hk. split.
+  - apply (add_all_at (fun p' => In (mke (enode e) s k) (pedges p')) _ e ce es p c);
+      [exact Ht | exact Hin | exact Hx | | |].
+    + intros p' c' e' Hs He' Hne Hy. now apply phi_edge_preserved.
+    + intros p' Hs Hy. apply (add_value_store_edges p' ce e _ Hs). now apply AE_arg.
+    + left. cbn. unfold read_id. lia.
+  - apply add_all_removes; [assumption | cbn; now apply (entry_reg c es e ce) |].
+    destruct Ht as [Hwf [Hc _]]. apply (edge_lt p c _ Hwf Hc Hx).
+Qed.
+
+(** edges (of any kind) leaving a node that is not registered are untouched *)
+Theorem C09_unregistered_edges_kept p c es x :
+  tctx p c es -> In x (pedges p) -> ~ In (esrc x) (map enode es) -> In x (pedges (add_all p c es)).
+Proof. intros Ht Hx Hno. now apply add_all_keeps. Qed.
+
+(** Conversely: every in-edge that an ORIGINAL node has in the transformed plan is an original edge from
+    an unregistered node, or stands for an original edge from a registered node [enode e]: an argument
+    edge now leaves [read_id ce], a Dependency edge now leaves [write_id ce] (stale entries only). *)
+Theorem C09_in_edges_of_original x : forall es p c,
+  tctx p c es -> In x (pedges (add_all p c es)) -> In (edst x) (pnodes p) ->
+  (In x (pedges p) /\ ~ In (esrc x) (map enode es)) \/
+  exists e ce, In (e, ce) (entry_ids c es) /\ In (mke (enode e) (edst x) (ekind x)) (pedges p) /\
+    ((ekind x <> KDep /\ esrc x = read_id ce) \/
+     (ekind x = KDep /\ estale e = true /\ esrc x = write_id ce)).
+Proof.
+  induction es as [|e0 es IH]; intros p c Ht Hx Hd; cbn [add_all entry_ids] in *.
+  - left. split; [assumption | intros []].
+  - pose proof (tctx_head _ _ _ _ Ht) as Hs. pose proof (tctx_step _ _ _ _ Ht) as Ht'.
+    pose proof Ht as [Hwf [Hc [Hnd Hn]]]. pose proof (Hc _ Hd) as Hdc.
+    assert (Hd' : In (edst x) (pnodes (add_value_store p c e0))).
+    { apply (add_value_store_nodes_In p c e0 _ Hs). now left. }
+    destruct (IH _ _ Ht' Hx Hd') as [[Hx' Hno] | [e [ce [Hin [Hy Hcase]]]]].
+    + apply (add_value_store_edges p c e0 _ Hs) in Hx'.
+      destruct Hx' as [x Hx' Hsrc | | Hst Hso | Hst Hso | Hst | pr Hst Hso Hpr | s k Hin Hk | s Hst Hin];
+        cbn [esrc edst ekind mke] in *; unfold lit_id, read_id, write_id in *; try lia.
+      * left. split; [assumption|]. cbn. intros [H | H]; [congruence | contradiction].
+      * right. exists e0, c. split; [now left|]. split; [assumption|]. left. auto.
+      * right. exists e0, c. split; [now left|]. split; [assumption|]. right. auto.
+    + assert (Hec : enode e < c).
+      { apply Hc, Hn. right. apply entry_ids_In in Hin. apply Hin. }
+      apply (add_value_store_edges p c e0 _ Hs) in Hy.
+      remember (mke (enode e) (edst x) (ekind x)) as y eqn:Ey.
+      assert (Ey1 : esrc y = enode e) by now subst y.
+      assert (Ey2 : edst y = edst x) by now subst y.
+      destruct Hy as [y Hy Hsrc | | Hst Hso | Hst Hso | Hst | pr Hst Hso Hpr | s k Hin' Hk | s Hst Hin'];
+        cbn [esrc edst ekind mke] in *; unfold lit_id, read_id, write_id in *; try lia.
+      right. exists e, ce. split; [now right|]. split; [|assumption]. now rewrite <- Ey.
+Qed.
+
+Corollary C09_args_only_from_reads p c es x :
+  tctx p c es -> In x (pedges (add_all p c es)) -> In (edst x) (pnodes p) -> ekind x <> KDep ->
+  (In x (pedges p) /\ ~ In (esrc x) (map enode es)) \/
+  exists e ce, In (e, ce) (entry_ids c es) /\ esrc x = read_id ce /\
+               In (mke (enode e) (edst x) (ekind x)) (pedges p).
+Proof.
+  intros Ht Hx Hd Hk. destruct (C09_in_edges_of_original x es p c Ht Hx Hd) as [H | [e [ce [H1 [H2 H3]]]]].
+  - now left.
+  - right. exists e, ce. destruct H3 as [[_ H3] | [H3 _]]; [auto | contradiction].
+Qed.
+
+Corollary C09_deps_only_from_writes p c es x :
+  tctx p c es -> In x (pedges (add_all p c es)) -> In (edst x) (pnodes p) -> ekind x = KDep ->
+  (In x (pedges p) /\ ~ In (esrc x) (map enode es)) \/
+  exists e ce, In (e, ce) (entry_ids c es) /\ estale e = true /\ esrc x = write_id ce /\
+               In (mke (enode e) (edst x) KDep) (pedges p).
+Proof.
+  intros Ht Hx Hd Hk. destruct (C09_in_edges_of_original x es p c Ht Hx Hd) as [H | [e [ce [H1 [H2 H3]]]]].
+  - now left.
+  - right. exists e, ce. rewrite Hk in H2. destruct H3 as [[H3 _] | [_ [H3 H4]]]; [contradiction | auto].
+Qed.
+
+(** ** B.3 plain dependents wait for the write (stale) or lose the edge (up to date) *)
+Lemma dep_moved_to_write p c es e ce s :
+  tctx p c es -> In (e, ce) (entry_ids c es) -> In (mke (enode e) s KDep) (pedges p) ->
+  estale e = true -> In (mke (write_id ce) s KDep) (pedges (add_all p c es)).
+Proof.
+  intros Ht Hin Hx Hst.
+  apply (add_all_at (fun p' => In (mke (enode e) s KDep) (pedges p')) _ e ce es p c);
+    [exact Ht | exact Hin | exact Hx | | |].
+  - intros p' c' e' Hs He' Hne Hy. now apply phi_edge_preserved.
+  - intros p' Hs Hy. apply (add_value_store_edges p' ce e _ Hs). now apply AE_dep.
+  - left. cbn. unfold write_id. lia.
+Qed.
+
+Theorem C09_dependents_on_write p c es e ce s :
+  tctx p c es -> In (e, ce) (entry_ids c es) -> In (mke (enode e) s KDep) (pedges p) ->
+  let q := add_all p c es in
+  ~ In (mke (enode e) s KDep) (pedges q) /\
+  (estale e = true -> In (mke (write_id ce) s KDep) (pedges q)) /\
+  (estale e = false -> ~ In (mke (read_id ce) s KDep) (pedges q)).
+Proof.
+  intros Ht Hin Hx q. subst q. pose proof Ht as [Hwf [Hc _]].
+  destruct (edge_lt p c _ Hwf Hc Hx) as [Hlt1 Hlt2]. cbn in Hlt1, Hlt2.
+  split; [|split].
+  - apply add_all_removes; [assumption | cbn; now apply (entry_reg c es e ce) | assumption].
+  - now apply dep_moved_to_write.
+  - intros Hst Hq.
+    assert (Hs : In s (pnodes p)). { destruct Hwf as [_ [_ He]]. apply (He _ Hx). }
+    destruct (C09_deps_only_from_writes p c es _ Ht Hq Hs eq_refl)
+      as [[Hp _] | [e2 [c2 [Hin2 [Hst2 [Heq _]]]]]].
+    + destruct (edge_lt p c _ Hwf Hc Hp) as [H1 _]. cbn in H1. apply entry_ids_In in Hin.
+      unfold read_id in H1. lia.
+    + cbn in Heq. destruct (entry_ids_order c es _ _ _ _ Hin Hin2) as [[-> _] | [H | H]].
+      * congruence.
+      * unfold next_id, read_id, write_id in *. destruct (estale e); lia.
+      * unfold next_id, read_id, write_id in *. rewrite Hst2 in H. lia.
+Qed.
